@@ -3,14 +3,14 @@ CONSTANTS
   Conts = {"c1", "c2"}
   Limits = {3}
   MaxReq = 2
-  MaxChg = 2
+  MaxChg = 1
   MaxStore = 2
-  KindSet = {"exact", "corrupt", "truncated", "abort"}
+  KindSet = {"exact", "corrupt"}
   ROs = {FALSE, TRUE}
   ExtNames = {"a"}
-  MaxFiles = {0, 2, 1000000}
-  FaultSet <- FaultsAll
-  WhatIf = "none"
+  MaxFiles = {2, 1000000}
+  FaultSet <- FaultsQuick
+  WhatIf = "offered_hash_and_merge"
 SPECIFICATION Spec
 INVARIANT NoViolation
 CHECK_DEADLOCK FALSE
